@@ -81,6 +81,8 @@ def parsePolicy (s : String) : Policy :=
   | "delay:flush" => .onDelay .flush
   | "delay:fsync" => .onDelay .flushAndFsync
   | "always:fsync" => .always .flushAndFsync
+  | "delaynow:flush" => .onDelay .flush
+  | "delaynow:fsync" => .onDelay .flushAndFsync
   | _ => .always .flush
 
 def parseBound (s : String) : MemQueue.Bound :=
@@ -115,7 +117,10 @@ def sortQs (qs : MemQueues) : MemQueues := qs.foldl (fun acc x => insertSorted x
 
 structure St where
   log : Option Log := none
+  /-- OS view of the directory as of the last materialisation -/
   disk : Image := []
+  /-- OS operations not yet applied to `disk`, newest first -/
+  pending : List OsOp := []
   buf : BufSt := {}
   /-- all OS operations since the start of the case, newest first -/
   opsRev : List OsOp := []
@@ -127,7 +132,11 @@ def geom : Geom := { B := Consts.BLOCK, K := Consts.BLOCKS_PER_FILE_VERIF, hB :=
 
 def St.absorb (st : St) (es : List Effect) : St :=
   let (b, ops) := toOsOps Consts.FRAME_NUM_BYTES st.buf es
-  { st with buf := b, disk := applyOsOps st.disk ops, opsRev := ops.reverse ++ st.opsRev }
+  { st with buf := b, pending := ops.reverse ++ st.pending, opsRev := ops.reverse ++ st.opsRev }
+
+/-- bring `disk` up to date -/
+def St.sync (st : St) : St :=
+  { st with disk := applyOsOps st.disk (coalesce (st.pending.reverse.filter (· != .sync))), pending := [] }
 
 def stateLines (msz : Nat) (l : Log) : List String :=
   let qs := sortQs l.queues
@@ -145,10 +154,10 @@ def dirLine (img : Image) : String :=
 def openOn (st : St) (img : Image) (toks : List String) (failAt : Option Nat) : St × List String :=
   let policy := parsePolicy (toks.getD 1 "always:flush")
   match recover geom img policy (parseOrder toks) failAt with
-  | .error .io => ({ st with log := none, disk := img, buf := {} }, ["O err:io"])
-  | .error .corruption => ({ st with log := none, disk := img, buf := {} }, ["O err:corruption"])
+  | .error .io => ({ st with log := none, disk := img, pending := [], buf := {} }, ["O err:io"])
+  | .error .corruption => ({ st with log := none, disk := img, pending := [], buf := {} }, ["O err:corruption"])
   | .ok r =>
-    let st1 : St := { st with log := some r.log, disk := img, buf := {} }
+    let st1 : St := { st with log := some r.log, disk := img, pending := [], buf := {} }
     (st1.absorb r.effects, [s!"O ok io={r.ioCalls}", effLine r.effects])
 
 def callOf (toks : List String) : Option Call :=
@@ -169,10 +178,10 @@ def runOp (msz : Nat) (st : St) (toks : List String) : St × List String :=
   | "open" :: _ => openOn { st with opsRev := [], baseK := 0, baseImg := [] } [] toks none
   | "reopen" :: _ =>
     -- drop: the `BufWriter` is flushed, then the directory is opened again
-    let st1 := st.absorb [.flush]
+    let st1 := (st.absorb [.flush]).sync
     openOn st1 st1.disk toks none
   | "faultopen" :: _ =>
-    let st1 := st.absorb [.flush]
+    let st1 := (st.absorb [.flush]).sync
     let failAt := (kvGet toks "fail").bind (·.toNat?)
     let (st2, out) := openOn st1 st1.disk toks failAt
     (st2, out)
@@ -180,7 +189,9 @@ def runOp (msz : Nat) (st : St) (toks : List String) : St × List String :=
     match st.log with
     | some l => (st, stateLines msz l)
     | none => (st, ["S closed"])
-  | "dir" :: _ => (st, [dirLine st.disk])
+  | "dir" :: _ =>
+    let st1 := st.sync
+    (st1, [dirLine st1.disk])
   | "range" :: q :: lo :: hi :: _ =>
     match st.log.bind (·.queues.get? (unhex q)) with
     | some mq => (st, ["G " ++ joinS "," ((mq.range (parseBound lo) (parseBound hi)).map recS)])
@@ -205,7 +216,7 @@ def runCrash (top : Top) (toks : List String) : Top × List String :=
   let ops := top.main.opsRev.reverse
   let m := top.main
   let (bk, bimg) := if m.baseK ≤ k then (m.baseK, m.baseImg) else (0, [])
-  let bimg' := applyOsOps bimg ((ops.drop bk).take (k - bk))
+  let bimg' := applyOsOps bimg (coalesce (((ops.drop bk).take (k - bk)).filter (· != .sync)))
   let main' := { m with baseK := k, baseImg := bimg' }
   let img := crashImage bimg' (ops.drop k) 0 cut
   let (side, out) := openOn {} img (toks.drop 2) none
